@@ -1,2 +1,554 @@
+/* unit/step ops around the dynamic-programming core: kernels (aln_seqseq.c, aln_seqprofile.c,
+   aln_profileprofile.c), controller (aln_controller.c), profiles (aln_setup.c) and do_align (aln_run.c).
+   All floats cross the protocol as binary32 bit patterns.
+
+   common argument groups
+     P      := <biotype> <type> <gpo> <gpe> <tgpe>      penalties as 8 hex digits; a value >= 0 overrides
+     OPND   := S<codes>            one sequence (codes < 23, "S-" = empty)
+             | R<nsip>:<hex>       raw profile, 64*(len+2) floats, used as is
+             | G<codes>/<codes>/.. group: profile built by a chain of real do_align calls ((s0+s1)+s2)+..
+     prepared profile of an operand (what a kernel sees): S -> make_profile_n; G -> chain profile followed by
+     set_gap_penalties_n(.., nsip of the other operand); R -> as given
+     FAM    := ss | sp | pp   (ss: both S; sp: second S; pp: any)
+     ST     := 24 hex digits (a, ga, gb)
+*/
 #include "kvh.h"
-struct kv_op kv_ops_dp[] = { {NULL, NULL} };
+#include <float.h>
+#include "tldevel.h"
+#include "msa_struct.h"
+#include "task.h"
+#include "aln_struct.h"
+#include "aln_param.h"
+#include "aln_mem.h"
+#include "aln_setup.h"
+#include "aln_controller.h"
+#include "aln_seqseq.h"
+#include "aln_seqprofile.h"
+#include "aln_profileprofile.h"
+#include "kvh_dp.h"
+
+/* ---------------------------------------------------------------- parsing helpers */
+
+static int p_int(const char *s, int *out)
+{
+        char *e; long v;
+        if(!*s) return 1;
+        v = strtol(s, &e, 10);
+        if(*e || e == s) return 1;
+        if(s[0] == '+' || s[0] == ' ') return 1;
+        *out = (int)v; return 0;
+}
+static int hexv(int c){ if(c>='0'&&c<='9') return c-'0'; if(c>='a'&&c<='f') return c-'a'+10; if(c>='A'&&c<='F') return c-'A'+10; return -1; }
+/* n floats from 8n hex digits */
+static int p_floats_n(const char *s, size_t nchar, float *out)
+{
+        if(nchar % 8) return 1;
+        for(size_t i = 0; i < nchar / 8; i++){
+                uint32_t w = 0;
+                for(int k = 0; k < 8; k++){ int h = hexv((unsigned char)s[8*i+k]); if(h < 0) return 1; w = (w << 4) | (uint32_t)h; }
+                memcpy(&out[i], &w, 4);
+        }
+        return 0;
+}
+static int p_float(const char *s, float *out){ if(strlen(s) != 8) return 1; return p_floats_n(s, 8, out); }
+static void pr_float(FILE *o, float x){ uint32_t w; memcpy(&w, &x, 4); fprintf(o, "%08x", w); }
+static void pr_floats(FILE *o, const float *v, size_t n){ if(!n){ fputc('-', o); return; } for(size_t i = 0; i < n; i++) pr_float(o, v[i]); }
+static uint32_t fnv(const float *v, size_t n)
+{
+        uint32_t h = 2166136261u;
+        for(size_t i = 0; i < n; i++){ uint32_t w; memcpy(&w, &v[i], 4); h = (h ^ w) * 16777619u; }
+        return h;
+}
+
+/* codes list (possibly empty "-"), every code < 23 */
+static int p_codes(const char *s, uint8_t **seq, int *len)
+{
+        struct kv_ints l;
+        /* strict: digits and commas only */
+        if(strcmp(s, "-") != 0){
+                if(!*s) return 1;
+                for(const char *p = s; *p; p++){
+                        if(!((*p >= '0' && *p <= '9') || *p == ',')) return 1;
+                        if(*p == ',' && (p == s || p[1] == ',' || p[1] == 0)) return 1;
+                }
+        }
+        if(kv_parse_ints(s, &l)) return 1;
+        uint8_t *q = malloc(l.n + 1);
+        for(int i = 0; i < l.n; i++){
+                if(l.v[i] < 0 || l.v[i] >= 23){ free(q); kv_free_ints(&l); return 1; }
+                q[i] = (uint8_t)l.v[i];
+        }
+        *seq = q; *len = l.n;
+        kv_free_ints(&l);
+        return 0;
+}
+
+/* P: 5 tokens. returns 0 ok, 1 bad-op, 2 aln_param_init failed */
+static int p_param(char **argv, struct aln_param **ap)
+{
+        int bt, ty; float gpo, gpe, tgpe;
+        static const int types[] = {-1,0,1,2,3,4,5,6,99};
+        if(p_int(argv[0], &bt) || p_int(argv[1], &ty)) return 1;
+        if(p_float(argv[2], &gpo) || p_float(argv[3], &gpe) || p_float(argv[4], &tgpe)) return 1;
+        if(bt < 0 || bt > 2) return 1;
+        int okty = 0;
+        for(unsigned i = 0; i < sizeof(types)/sizeof(types[0]); i++) if(types[i] == ty) okty = 1;
+        if(!okty) return 1;
+        *ap = NULL;
+        if(aln_param_init(ap, bt, 1, ty, gpo, gpe, tgpe) != OK){ *ap = NULL; return 2; }
+        return 0;
+}
+
+/* ---------------------------------------------------------------- a small real msa for do_align */
+
+struct dpmsa { struct msa *msa; struct aln_tasks *t; int n; };
+
+static void dpmsa_free(struct dpmsa *d)
+{
+        if(!d->msa) return;
+        for(int i = 0; i < d->n; i++){ free(d->msa->sequences[i]->gaps); free(d->msa->sequences[i]->s); free(d->msa->sequences[i]); }
+        for(int i = 0; i < d->msa->num_profiles; i++) free(d->msa->sip[i]);
+        free(d->msa->sequences); free(d->msa->sip); free(d->msa->nsip); free(d->msa->plen); free(d->msa);
+        if(d->t) free_tasks(d->t);
+        d->msa = NULL; d->t = NULL;
+}
+/* takes ownership of the seqs[i] buffers */
+static void dpmsa_make(struct dpmsa *d, int n, uint8_t **seqs, int *lens)
+{
+        struct msa *msa = calloc(1, sizeof(struct msa));
+        msa->numseq = n; msa->num_profiles = 2*n - 1; msa->alloc_numseq = n; msa->quiet = 1;
+        msa->sequences = calloc(n, sizeof(struct msa_seq*));
+        msa->sip = calloc(msa->num_profiles, sizeof(int*));
+        msa->nsip = calloc(msa->num_profiles, sizeof(int));
+        msa->plen = calloc(msa->num_profiles, sizeof(int));
+        for(int i = 0; i < n; i++){
+                msa->sequences[i] = calloc(1, sizeof(struct msa_seq));
+                msa->sequences[i]->s = seqs[i];
+                msa->sequences[i]->len = lens[i];
+                msa->sequences[i]->gaps = calloc(lens[i] + 1, sizeof(int));
+                msa->sip[i] = malloc(sizeof(int)); msa->sip[i][0] = i;
+                msa->nsip[i] = 1;
+        }
+        d->msa = msa; d->n = n; d->t = NULL;
+        alloc_tasks(&d->t, n > 1 ? n : 2);
+}
+/* run task k = (a,b,c) through the real do_align; m is returned for inspection (caller frees) */
+static struct aln_mem *dpmsa_task(struct dpmsa *d, struct aln_param *ap, int k, int a, int b, int c, int run_parallel)
+{
+        struct aln_mem *m = NULL;
+        d->t->list[k]->a = a; d->t->list[k]->b = b; d->t->list[k]->c = c;
+        alloc_aln_mem(&m, 256);
+        m->ap = ap; m->mode = ALN_MODE_FULL; m->run_parallel = (uint8_t)run_parallel;
+        d->msa->run_parallel = (uint8_t)run_parallel;
+        kv_do_align(d->msa, d->t, m, k);
+        return m;
+}
+
+/* ---------------------------------------------------------------- operands */
+
+struct opnd { int kind; int len; int nsip; uint8_t *seq; float *prof; };
+
+static void opnd_free(struct opnd *o){ free(o->seq); free(o->prof); o->seq = NULL; o->prof = NULL; }
+
+/* returns 0 ok, 1 bad-op */
+static int opnd_parse(struct aln_param *ap, const char *tok, struct opnd *o)
+{
+        memset(o, 0, sizeof(*o));
+        o->kind = tok[0];
+        if(tok[0] == 'S'){
+                if(p_codes(tok + 1, &o->seq, &o->len)) return 1;
+                o->nsip = 1;
+                if(make_profile_n(ap, o->seq, o->len, &o->prof) != OK){ opnd_free(o); return 1; }
+                return 0;
+        }
+        if(tok[0] == 'R'){
+                const char *c = strchr(tok, ':');
+                if(!c) return 1;
+                char buf[16]; size_t l = (size_t)(c - tok - 1);
+                if(l == 0 || l > 8) return 1;
+                memcpy(buf, tok + 1, l); buf[l] = 0;
+                for(size_t i = 0; i < l; i++) if(buf[i] < '0' || buf[i] > '9') return 1;
+                o->nsip = atoi(buf);
+                size_t nch = strlen(c + 1);
+                if(nch % 8 || (nch / 8) % 64 || nch / 8 < 128) return 1;
+                o->prof = malloc(sizeof(float) * (nch / 8));
+                if(p_floats_n(c + 1, nch, o->prof)){ opnd_free(o); return 1; }
+                o->len = (int)(nch / 8 / 64) - 2;
+                return 0;
+        }
+        if(tok[0] == 'G'){
+                int n = 1;
+                for(const char *p = tok + 1; *p; p++) if(*p == '/') n++;
+                if(n < 2) return 1;
+                uint8_t **seqs = calloc(n, sizeof(uint8_t*)); int *lens = calloc(n, sizeof(int));
+                char *dup = strdup(tok + 1); int bad = 0, k = 0;
+                char *save = NULL;
+                /* strtok_r would skip empty fields; split by hand */
+                char *p = dup;
+                while(k < n){
+                        char *e = strchr(p, '/'); if(e) *e = 0;
+                        if(p_codes(p, &seqs[k], &lens[k]) || lens[k] < 1) { bad = 1; if(seqs[k] && lens[k] < 1){ free(seqs[k]); seqs[k] = NULL; } }
+                        k++;
+                        if(!e) break;
+                        p = e + 1;
+                }
+                (void)save;
+                if(bad || k != n){ for(int i = 0; i < n; i++) free(seqs[i]); free(seqs); free(lens); free(dup); return 1; }
+                struct dpmsa d; dpmsa_make(&d, n, seqs, lens);
+                d.t->n_tasks = n;          /* so that no task of the chain is the last one: update_n always runs */
+                int cur = 0;
+                for(int i = 1; i < n; i++){
+                        struct aln_mem *m = dpmsa_task(&d, ap, i - 1, cur, i, n + i - 1, 0);
+                        free_aln_mem(m);
+                        cur = n + i - 1;
+                }
+                o->len = d.msa->plen[cur]; o->nsip = n;
+                o->prof = malloc(sizeof(float) * 64 * (o->len + 2));
+                memcpy(o->prof, d.t->profile[cur], sizeof(float) * 64 * (o->len + 2));
+                dpmsa_free(&d);
+                free(seqs); free(lens); free(dup);
+                return 0;
+        }
+        return 1;
+}
+static void opnd_prepare(struct opnd *o, int other_nsip)
+{
+        if(o->kind == 'G') set_gap_penalties_n(o->prof, o->len, other_nsip);
+}
+
+/* FAM P OPND OPND sip : 9 tokens -> aln_mem with operands installed (lens set, arrays sized).
+   returns 0 ok, 1 bad-op, 2 param-fail */
+struct dpctx { struct aln_param *ap; struct opnd A, B; struct aln_mem *m; int fam; };
+
+static void dpctx_free(struct dpctx *c)
+{
+        if(c->m) free_aln_mem(c->m);
+        opnd_free(&c->A); opnd_free(&c->B);
+        if(c->ap) aln_param_free(c->ap);
+        memset(c, 0, sizeof(*c));
+}
+static int dpctx_make(char **argv, struct dpctx *c)
+{
+        int sip, rc;
+        memset(c, 0, sizeof(*c));
+        if(strcmp(argv[0], "ss") == 0) c->fam = 0; else if(strcmp(argv[0], "sp") == 0) c->fam = 1; else if(strcmp(argv[0], "pp") == 0) c->fam = 2; else return 1;
+        if(p_int(argv[8], &sip) || sip < 0 || sip > 1000000) return 1;
+        rc = p_param(argv + 1, &c->ap);
+        if(rc) return rc;
+        if(opnd_parse(c->ap, argv[6], &c->A)){ dpctx_free(c); return 1; }
+        if(opnd_parse(c->ap, argv[7], &c->B)){ dpctx_free(c); return 1; }
+        if((c->fam == 0 && (c->A.kind != 'S' || c->B.kind != 'S')) || (c->fam == 1 && c->B.kind != 'S')){ dpctx_free(c); return 1; }
+        if(c->A.len < 1 || c->B.len < 1){ dpctx_free(c); return 1; }
+        opnd_prepare(&c->A, c->B.nsip); opnd_prepare(&c->B, c->A.nsip);
+        alloc_aln_mem(&c->m, 256);
+        struct aln_mem *m = c->m;
+        m->ap = c->ap; m->mode = ALN_MODE_FULL; m->run_parallel = 0;
+        m->len_a = c->A.len; m->len_b = c->B.len;
+        init_alnmem(m);
+        m->sip = sip;
+        if(c->fam == 0){ m->seq1 = c->A.seq; m->seq2 = c->B.seq; m->prof1 = NULL; m->prof2 = NULL; }
+        else if(c->fam == 1){ m->seq1 = NULL; m->seq2 = c->B.seq; m->prof1 = c->A.prof; m->prof2 = NULL; }
+        else { m->seq1 = NULL; m->seq2 = NULL; m->prof1 = c->A.prof; m->prof2 = c->B.prof; }
+        return 0;
+}
+static int p_state(const char *s, struct states *st)
+{
+        float v[3];
+        if(strlen(s) != 24 || p_floats_n(s, 24, v)) return 1;
+        st->a = v[0]; st->ga = v[1]; st->gb = v[2];
+        return 0;
+}
+static void pr_cells(FILE *out, const struct states *s, int from, int to)
+{
+        for(int j = from; j <= to; j++){
+                if(j > from) fputc(',', out);
+                pr_float(out, s[j].a); pr_float(out, s[j].ga); pr_float(out, s[j].gb);
+        }
+}
+static int finish(struct dpctx *c, int rc, FILE *out)
+{
+        if(rc == 2){ fputs("param-fail", out); rc = 0; }
+        return rc;
+}
+
+/* ---------------------------------------------------------------- profile ops */
+
+/* dp_make_profile P S<codes> -> floats */
+static int op_make_profile(int argc, char **argv, FILE *out)
+{
+        if(argc != 6) return 1;
+        struct aln_param *ap = NULL; struct opnd o;
+        int rc = p_param(argv, &ap);
+        if(rc == 2){ fputs("param-fail", out); return 0; }
+        if(rc) return 1;
+        if(argv[5][0] != 'S' || opnd_parse(ap, argv[5], &o)){ aln_param_free(ap); return 1; }
+        pr_floats(out, o.prof, (size_t)64 * (o.len + 2));
+        opnd_free(&o); aln_param_free(ap);
+        return 0;
+}
+
+/* dp_set_gap P OPND nsip -> floats */
+static int op_set_gap(int argc, char **argv, FILE *out)
+{
+        if(argc != 7) return 1;
+        struct aln_param *ap = NULL; struct opnd o; int nsip;
+        if(p_int(argv[6], &nsip) || nsip < 0 || nsip > 1000000) return 1;
+        int rc = p_param(argv, &ap);
+        if(rc == 2){ fputs("param-fail", out); return 0; }
+        if(rc) return 1;
+        if(opnd_parse(ap, argv[5], &o)){ aln_param_free(ap); return 1; }
+        set_gap_penalties_n(o.prof, o.len, nsip);
+        pr_floats(out, o.prof, (size_t)64 * (o.len + 2));
+        opnd_free(&o); aln_param_free(ap);
+        return 0;
+}
+
+/* dp_update P OPND OPND <codes> sipa sipb <full:0|1> -> floats | hash | fault */
+static int op_update(int argc, char **argv, FILE *out)
+{
+        if(argc != 11) return 1;
+        struct aln_param *ap = NULL; struct opnd A, B; struct kv_ints codes; int sipa, sipb, full;
+        if(p_int(argv[8], &sipa) || p_int(argv[9], &sipb) || p_int(argv[10], &full)) return 1;
+        if(sipa < 0 || sipb < 0 || sipa > 1000000 || sipb > 1000000 || (full != 0 && full != 1)) return 1;
+        for(const char *p = argv[7]; *p; p++) if(!((*p >= '0' && *p <= '9') || *p == ',' || (*p == '-' && p == argv[7] && !p[1]))) return 1;
+        if(kv_parse_ints(argv[7], &codes)) return 1;
+        int rc = p_param(argv, &ap);
+        if(rc == 2){ fputs("param-fail", out); kv_free_ints(&codes); return 0; }
+        if(rc){ kv_free_ints(&codes); return 1; }
+        if(opnd_parse(ap, argv[5], &A)){ aln_param_free(ap); kv_free_ints(&codes); return 1; }
+        if(opnd_parse(ap, argv[6], &B)){ opnd_free(&A); aln_param_free(ap); kv_free_ints(&codes); return 1; }
+        opnd_prepare(&A, B.nsip); opnd_prepare(&B, A.nsip);
+        /* would update_n leave a profile or copy an uninitialised column? */
+        int na = 0, nb = 0, fault = 0, ncol = 0;
+        for(int i = 0; i < codes.n && codes.v[i] != 3; i++){
+                int c = codes.v[i], hit = 0;
+                if(c == 0){ if(na + 1 > A.len + 1 || nb + 1 > B.len + 1) fault = 1; na++; nb++; hit = 1; }
+                if(c & 1){ if(nb + 1 > B.len + 1) fault = 1; nb++; hit = 1; }
+                if(c & 2){ if(na + 1 > A.len + 1) fault = 1; na++; hit = 1; }
+                if(!hit) fault = 1;
+                ncol++;
+        }
+        if(na + 1 > A.len + 1 || nb + 1 > B.len + 1) fault = 1;
+        if(fault){ fputs("fault", out); }
+        else{
+                int *path = malloc(sizeof(int) * (ncol + 3));
+                path[0] = ncol;
+                for(int i = 0; i < ncol; i++) path[i + 1] = codes.v[i];
+                path[ncol + 1] = 3;
+                float *newp = malloc(sizeof(float) * 64 * (ncol + 2));
+                update_n(A.prof, B.prof, newp, ap, path, sipa, sipb);
+                if(full) pr_floats(out, newp, (size_t)64 * (ncol + 2));
+                else fprintf(out, "%08x", fnv(newp, (size_t)64 * (ncol + 2)));
+                free(newp); free(path);
+        }
+        opnd_free(&A); opnd_free(&B); aln_param_free(ap); kv_free_ints(&codes);
+        return 0;
+}
+
+/* ---------------------------------------------------------------- kernel ops */
+
+static int p_rect(char **argv, struct dpctx *c, int *sa, int *ea, int *sb, int *eb, int need_b)
+{
+        /* "L" as enda / endb stands for len_a / len_b (group lengths are only known after their alignment) */
+        if(p_int(argv[0], sa) || p_int(argv[2], sb)) return 1;
+        if(strcmp(argv[1], "L") == 0) *ea = c->m->len_a; else if(p_int(argv[1], ea)) return 1;
+        if(strcmp(argv[3], "L") == 0) *eb = c->m->len_b; else if(p_int(argv[3], eb)) return 1;
+        if(*sa < 0 || *sa > *ea || *ea > c->m->len_a) return 1;
+        if(*sb < 0 || *eb > c->m->len_b) return 1;
+        if(need_b ? (*sb >= *eb) : (*sb > *eb)) return 1;
+        return 0;
+}
+
+/* dp_fwd|dp_bwd FAM P OPND OPND sip starta enda startb endb ST -> cells startb..endb */
+static int op_kernel(int argc, char **argv, FILE *out, int backward)
+{
+        if(argc != 14) return 1;
+        struct dpctx c; int sa, ea, sb, eb; struct states st;
+        if(p_state(argv[13], &st)) return 1;
+        int rc = dpctx_make(argv, &c);
+        if(rc) return finish(&c, rc, out);
+        if(p_rect(argv + 9, &c, &sa, &ea, &sb, &eb, 1)){ dpctx_free(&c); return 1; }
+        struct aln_mem *m = c.m;
+        m->startb = sb; m->endb = eb;
+        if(!backward){
+                m->starta = sa; m->enda = ea; m->f[0] = st;
+                if(c.fam == 0) aln_seqseq_foward(m); else if(c.fam == 1) aln_seqprofile_foward(m); else aln_profileprofile_foward(m);
+                pr_cells(out, m->f, sb, eb);
+        }else{
+                m->starta_2 = sa; m->enda_2 = ea; m->b[0] = st;
+                if(c.fam == 0) aln_seqseq_backward(m); else if(c.fam == 1) aln_seqprofile_backward(m); else aln_profileprofile_backward(m);
+                pr_cells(out, m->b, sb, eb);
+        }
+        dpctx_free(&c);
+        return 0;
+}
+static int op_fwd(int argc, char **argv, FILE *out){ return op_kernel(argc, argv, out, 0); }
+static int op_bwd(int argc, char **argv, FILE *out){ return op_kernel(argc, argv, out, 1); }
+
+static void pr_meet(FILE *out, int meet, int t, float score){ fprintf(out, "%d %d ", meet, t); pr_float(out, score); }
+
+static void call_meetup(struct dpctx *c, int old_cor[], int *meet, int *t, float *score)
+{
+        if(c->fam == 0) aln_seqseq_meetup(c->m, old_cor, meet, t, score);
+        else if(c->fam == 1) aln_seqprofile_meetup(c->m, old_cor, meet, t, score);
+        else aln_profileprofile_meetup(c->m, old_cor, meet, t, score);
+}
+
+/* dp_meet FAM P OPND OPND sip startb endb mid <f cells> <b cells> -> meet t score */
+static int op_meet(int argc, char **argv, FILE *out)
+{
+        if(argc != 14) return 1;
+        struct dpctx c; int sb, eb, mid;
+        if(p_int(argv[9], &sb) || p_int(argv[10], &eb) || p_int(argv[11], &mid)) return 1;
+        int rc = dpctx_make(argv, &c);
+        if(rc) return finish(&c, rc, out);
+        struct aln_mem *m = c.m;
+        if(sb < 0 || sb >= eb || eb > m->len_b || mid < 0 || mid > m->len_a){ dpctx_free(&c); return 1; }
+        size_t n = (size_t)(eb - sb + 1);
+        if(strlen(argv[12]) != n * 24 || strlen(argv[13]) != n * 24){ dpctx_free(&c); return 1; }
+        float *fv = malloc(sizeof(float) * 3 * n), *bv = malloc(sizeof(float) * 3 * n);
+        if(p_floats_n(argv[12], n * 24, fv) || p_floats_n(argv[13], n * 24, bv)){ free(fv); free(bv); dpctx_free(&c); return 1; }
+        for(size_t k = 0; k < n; k++){
+                m->f[sb + k].a = fv[3*k]; m->f[sb + k].ga = fv[3*k+1]; m->f[sb + k].gb = fv[3*k+2];
+                m->b[sb + k].a = bv[3*k]; m->b[sb + k].ga = bv[3*k+1]; m->b[sb + k].gb = bv[3*k+2];
+        }
+        free(fv); free(bv);
+        m->startb = sb; m->endb = eb;
+        int old_cor[5] = {0, m->len_a, sb, eb, mid}; int meet, t; float score;
+        call_meetup(&c, old_cor, &meet, &t, &score);
+        pr_meet(out, meet, t, score);
+        dpctx_free(&c);
+        return 0;
+}
+
+/* dp_step FAM P OPND OPND sip starta enda startb endb ST(f0) ST(b0) -> meet t score   (forward, backward, meetup) */
+static int op_step(int argc, char **argv, FILE *out)
+{
+        if(argc != 15) return 1;
+        struct dpctx c; int sa, ea, sb, eb; struct states f0, b0;
+        if(p_state(argv[13], &f0) || p_state(argv[14], &b0)) return 1;
+        int rc = dpctx_make(argv, &c);
+        if(rc) return finish(&c, rc, out);
+        if(p_rect(argv + 9, &c, &sa, &ea, &sb, &eb, 1) || sa >= ea){ dpctx_free(&c); return 1; }
+        struct aln_mem *m = c.m;
+        int mid = (ea - sa) / 2 + sa;
+        int old_cor[5] = {sa, ea, sb, eb, mid}; int meet, t; float score;
+        m->starta = sa; m->enda = mid; m->starta_2 = mid; m->enda_2 = ea; m->startb = sb; m->endb = eb;
+        m->f[0] = f0; m->b[0] = b0;
+        if(c.fam == 0){ aln_seqseq_foward(m); aln_seqseq_backward(m); }
+        else if(c.fam == 1){ aln_seqprofile_foward(m); aln_seqprofile_backward(m); }
+        else { aln_profileprofile_foward(m); aln_profileprofile_backward(m); }
+        call_meetup(&c, old_cor, &meet, &t, &score);
+        pr_meet(out, meet, t, score);
+        dpctx_free(&c);
+        return 0;
+}
+
+/* ---------------------------------------------------------------- controller ops */
+
+static void pr_trace(FILE *out)
+{
+        if(kv_trace_n == 0){ fputc('-', out); return; }
+        for(int i = 0; i < kv_trace_n; i++){
+                struct kv_trace_entry *e = &kv_trace[i];
+                if(i) fputc(';', out);
+                fprintf(out, "%d:%d:%d:%d:%d:%d:", e->sa, e->ea, e->sb, e->eb, e->meet, e->t);
+                pr_float(out, e->score);
+        }
+}
+static int p_kind(const char *s, struct states *st)
+{
+        st->a = -FLT_MAX; st->ga = -FLT_MAX; st->gb = -FLT_MAX;
+        if(strcmp(s, "A") == 0) st->a = 0.0F; else if(strcmp(s, "GA") == 0) st->ga = 0.0F; else if(strcmp(s, "GB") == 0) st->gb = 0.0F; else return 1;
+        return 0;
+}
+
+/* dp_runner <par|ser> FAM P OPND OPND sip starta enda startb endb <fkind> <bkind> <mon:0|1>
+   -> <path[1..len_a]> <trace> [mon=1]
+   The meetup contract is evaluated by the model on the (identical) trace; this side states that it holds. */
+static int op_runner(int argc, char **argv, FILE *out)
+{
+        if(argc != 17) return 1;
+        struct dpctx c; int sa, ea, sb, eb, mon, par; struct states f0, b0;
+        if(strcmp(argv[0], "par") == 0) par = 1; else if(strcmp(argv[0], "ser") == 0) par = 0; else return 1;
+        if(p_kind(argv[14], &f0) || p_kind(argv[15], &b0) || p_int(argv[16], &mon) || (mon != 0 && mon != 1)) return 1;
+        int rc = dpctx_make(argv + 1, &c);
+        if(rc) return finish(&c, rc, out);
+        if(p_rect(argv + 10, &c, &sa, &ea, &sb, &eb, 0)){ dpctx_free(&c); return 1; }
+        struct aln_mem *m = c.m;
+        m->starta = sa; m->enda = ea; m->startb = sb; m->endb = eb;
+        m->f[0] = f0; m->b[0] = b0;
+        m->run_parallel = (uint8_t)par;
+        kv_trace_reset();
+        if(par) aln_runner(m); else aln_runner_serial(m);
+        kv_print_ints(out, m->path + 1, m->len_a);
+        fputc(' ', out);
+        pr_trace(out);
+        if(mon) fputs(" mon=1", out);
+        dpctx_free(&c);
+        return 0;
+}
+
+/* dp_align <run_parallel:0|1> P nseq <codes>*nseq <a0,b0,a1,b1,..>
+   tasks k = (a_k, b_k, nseq+k) through the real do_align, the last one being the last task of the tree.
+   -> per task  <raw path>/<gap-info path>/<profile hash | ->/<trace>/mon=1 */
+static int op_align(int argc, char **argv, FILE *out)
+{
+        if(argc < 8) return 1;
+        int par, n;
+        if(p_int(argv[0], &par) || (par != 0 && par != 1) || p_int(argv[6], &n) || n < 2 || n > 64 || argc != 8 + n) return 1;
+        struct kv_ints tl;
+        for(const char *p = argv[7 + n]; *p; p++) if(!((*p >= '0' && *p <= '9') || *p == ',')) return 1;
+        if(kv_parse_ints(argv[7 + n], &tl)) return 1;
+        int nt = tl.n / 2;
+        if(tl.n % 2 || nt < 1 || nt > n - 1){ kv_free_ints(&tl); return 1; }
+        /* every operand exists and is used once */
+        int used[200] = {0}, bad = 0;
+        for(int k = 0; k < nt && !bad; k++){
+                int a = tl.v[2*k], b = tl.v[2*k+1];
+                if(a < 0 || b < 0 || a == b || a >= n + k || b >= n + k || used[a] || used[b]) bad = 1;
+                else { used[a] = 1; used[b] = 1; }
+        }
+        if(bad){ kv_free_ints(&tl); return 1; }
+        struct aln_param *ap = NULL;
+        int rc = p_param(argv + 1, &ap);
+        if(rc == 2){ fputs("param-fail", out); kv_free_ints(&tl); return 0; }
+        if(rc){ kv_free_ints(&tl); return 1; }
+        uint8_t **seqs = calloc(n, sizeof(uint8_t*)); int *lens = calloc(n, sizeof(int));
+        for(int i = 0; i < n && !bad; i++) if(p_codes(argv[7 + i], &seqs[i], &lens[i]) || lens[i] < 1) bad = 1;
+        if(bad){ for(int i = 0; i < n; i++) free(seqs[i]); free(seqs); free(lens); aln_param_free(ap); kv_free_ints(&tl); return 1; }
+        struct dpmsa d; dpmsa_make(&d, n, seqs, lens);
+        d.t->n_tasks = nt;
+        for(int k = 0; k < nt; k++){
+                int a = tl.v[2*k], b = tl.v[2*k+1], cc = n + k;
+                int la = d.msa->nsip[a] == 1 ? d.msa->sequences[a]->len : d.msa->plen[a];
+                kv_trace_reset();
+                struct aln_mem *m = dpmsa_task(&d, ap, k, a, b, cc, par);
+                if(k) fputc(' ', out);
+                kv_print_ints(out, m->tmp_path + 1, la);
+                fputc('/', out);
+                kv_print_ints(out, m->path + 1, m->path[0]);
+                fputc('/', out);
+                if(k != nt - 1) fprintf(out, "%08x", fnv(d.t->profile[cc], (size_t)64 * (m->path[0] + 2))); else fputc('-', out);
+                fputc('/', out);
+                pr_trace(out);
+                fputs("/mon=1", out);
+                free_aln_mem(m);
+        }
+        dpmsa_free(&d);
+        free(seqs); free(lens); aln_param_free(ap); kv_free_ints(&tl);
+        return 0;
+}
+
+struct kv_op kv_ops_dp[] = {
+        {"dp_make_profile", op_make_profile},
+        {"dp_set_gap", op_set_gap},
+        {"dp_update", op_update},
+        {"dp_fwd", op_fwd},
+        {"dp_bwd", op_bwd},
+        {"dp_meet", op_meet},
+        {"dp_step", op_step},
+        {"dp_runner", op_runner},
+        {"dp_align", op_align},
+        {NULL, NULL}
+};
